@@ -45,6 +45,7 @@ def run(ctx):
     chk.rule("R06.2", "token-walking builders are only reached past a successful token check on the same tokens")
     chk.rule("R06.3", "token walkers: every path around the loop advances the token index")
     chk.rule("R06.4", "no unsafe code")
+    chk.rule("R06.5", "Val operators: an iteration whose length is an operand VALUE must be able to stop early (try_fold / find / any ...), never an exhaustive fold")
     cg, R = lib_group(fb)
     pop = panics.population(fb, R)
     classes = {c["key"]: c for c in json.load(open(AUDIT)).get("lib", [])}
@@ -63,7 +64,18 @@ def run(ctx):
             chk.violation("R06.1", "count:%s" % k, "%d sites of class %s, audit covers %d%s; sites: %s" % (
                 len(ss), k, c["max"], (" - new in %s" % newfn) if newfn else "", where[:10]), ss[0]["loc"])
         else:
-            chk.ok("R06.1", "class %s" % k, "%d <= %d: %s" % (len(ss), c["max"], c["reason"][:100]), ss[0]["loc"])
+            gs = [g for g in c.get("guards", ["none"]) if g != "none"]
+            lost = []
+            for s in ss:
+                for g in gs:
+                    okg, why = guards.GUARDS[g](fb, fb.bodies[s["fn"]], s)
+                    if not okg:
+                        lost.append((s, g, why))
+            if lost:
+                for s, g, why in lost:
+                    chk.violation("R06.1", "guard:%s:%s" % (s["fn"], k), "may-panic site in %s lost the invariant that protects it (%s): %s" % (s["fn"], g, why), s["loc"])
+            else:
+                chk.ok("R06.1", "class %s" % k, "%d <= %d: %s" % (len(ss), c["max"], c["reason"][:100]), ss[0]["loc"])
     chk.counts["functions_in_scope"] = len(R)
     chk.counts["sites"] = len(pop)
     chk.counts["classes"] = len(by)
@@ -144,6 +156,30 @@ def run(ctx):
         if not found:
             chk.unrecognised("R06.3", "walker:%s" % w["path"], "token loop `while idx < tokens.len()` not recognised", loc(w["span"]))
     chk.floor("R06.3", "token walkers", nw, 2)
+
+    # ---- R06.5 value-proportional iteration in operator functions
+    _, _, _, rval = c17.val_group(fb, cg)
+    EXHAUSTIVE = {"fold", "sum", "product", "count", "last", "for_each", "collect", "max", "min", "max_by", "min_by", "reduce", "nth"}
+    nrange = 0
+    for p in sorted(rval):
+        b = fb.bodies[p]
+        org = dom.Origins(b)
+        for bi, t in mir.calls(b):
+            f = t["func"]
+            if f.get("k") != "fndef" or f.get("trait") != "std::iter::Iterator" or not t["args"]:
+                continue
+            term = org.op_term(t["args"][0])
+            if "std::ops::Range" not in term:
+                continue
+            valued = "ToPrimitive::to_" in term or " as " in term and "to_usize" in term
+            if not re.search(r"num::ToPrimitive::to_\w+\(|var:\w*usize\w*", term):
+                continue
+            nrange += 1
+            if f["name"] in EXHAUSTIVE:
+                chk.violation("R06.5", "exhaustive:%s:%s" % (p, f["name"]), "%s iterates a range whose length is an operand value with the exhaustive consumer `%s`: an overflowing computation runs on for up to 2^63 steps instead of stopping (hang at parse time through constant folding)" % (p, f["name"]), loc(t["span"]))
+            else:
+                chk.ok("R06.5", "%s: value-sized range consumed by short-circuiting `%s`" % (p.split("::")[-1], f["name"]), "", loc(t["span"]))
+    chk.floor("R06.5", "value-sized ranges in Val operators", nrange, 1)
 
     # ---- R06.4
     user_unsafe = [u for u in fb.raw["unsafe_blocks"] if "UserProvided" in u["source"]]
